@@ -15,7 +15,7 @@ struct C08 {
   long proc_start = 0;
   bool in_process = false, with_clear = false;
   int budget = 0;          // injections still allowed in the current operation
-  int injected = 0, elapsed_deletes = 0, fired = 0, clears = 0, clears_elapsed = 0;
+  int injected = 0, elapsed_deletes = 0, fired = 0, clears = 0, clears_elapsed = 0, far = 0;
   // mode with-clear: some actions play the part of the stack's own timers (their ids are entered in the node structure where COTmrClear looks
   // for them: heartbeat producer, TPDO event / inhibit, one heartbeat consumer, SYNC producer); COTmrClear must cancel exactly those - pending or
   // elapsed-but-unprocessed alike - and leave the application's actions alone
@@ -132,6 +132,10 @@ void case_impl(Ctx &c, bool with_clear) {
     uint32_t op = with_clear ? c.t.weighted(WC) : c.t.weighted(W);   // mode "random" keeps the alphabet the saved witnesses were recorded with
     if (op == 5) { x.clear(); x.after_op("COTmrClear"); }
     else if (op == 0) {
+      if (c.param == 1 && c.t.chance(70)) {   // mode far-and-near: legal tick counts around 2^16, 2^31 and 2^32 - 1 next to the short ones
+        static const uint32_t MARK[5] = {0x10000u, 0x7FFFFFFFu, 0x80000000u, 0xABA95000u, 0xFFFFFFF0u}; uint32_t m = MARK[c.t.below(5)] - 8 + c.t.below(16);
+        x.create(c.t.coin() ? m : 0, c.t.coin() ? m : c.t.below(4)); x.far++;
+      } else
       x.create(c.t.below(5), c.t.below(4));
       if (with_clear && x.m.back().active && c.t.coin()) { int k = (int)c.t.below(5); if (*x.owner_slot(k) == -1) { *x.owner_slot(k) = (int16_t)x.m.back().id; VLOG(c, "  (id %d now belongs to the stack, owner %d)", x.m.back().id, k); } }
       x.after_op("create"); }
@@ -156,6 +160,7 @@ void case_impl(Ctx &c, bool with_clear) {
   if (x.elapsed_deletes) c.cls("delete-of-elapsed-unprocessed");
   if (x.fired) c.cls("callback-fired");
   if (!x.injected && !x.elapsed_deletes) c.cls("no-preemption");
+  if (x.far) c.cls(x.fired ? "action-2^16..2^32-ticks-away-created-and-callback-fired" : "action-2^16..2^32-ticks-away-created");
   if (x.clears) c.cls("stack-timers-cleared"); if (x.clears_elapsed) c.cls("stack-timer-cleared-while-elapsed-and-unprocessed");
 }
 void case_random(Ctx &c) { case_impl(c, false); }
@@ -166,10 +171,11 @@ Registrar reg(Prop{
     "Cases are task-level operation sequences {create, delete (biased to elapsed-but-unprocessed actions), service ticks, process} on the real timer manager (pool 1..6, 1..16 in thorough) together with a schedule: "
     "at every preemption point the harness owns (before each COTmrLock acquisition, after each COTmrUnlock release, between calls) the tape decides how many tick-service calls preempt (0, 1, 2, until-next-expiry). "
     "Mode with-clear adds COTmrClear (what an NMT reset and CONodeStop call): half of the created actions are entered in the node structure as the stack's own timers (heartbeat producer, TPDO event/inhibit, a heartbeat consumer, SYNC producer); COTmrClear must cancel exactly those - pending or elapsed-but-unprocessed - forget their ids, and leave the application's actions alone. "
-    "Oracle: interval reference model (admissible due window per expiry) + pool walk after every call and every injected service. "
+    "Mode far-and-near: a quarter of the created actions lie around 2^16, 2^31 or 2^32-1 ticks ahead. Oracle: interval reference model (admissible due window per expiry) + pool walk after every call and every injected service. "
     "Non-trivial: at least one service call was injected at a lock boundary, or a delete hit an elapsed-but-unprocessed action. Distinct = distinct decoded choice sequence.",
     {Mode{"random", case_random, false, 3000000, 100000000, 0, 0, 260, 500},
-     Mode{"with-clear", case_clear, false, 800000, 20000000, 0, 0, 260, 500}},
+     Mode{"with-clear", case_clear, false, 800000, 20000000, 0, 0, 260, 500},
+     Mode{"far-and-near", case_random, false, 500000, 10000000, 1, 1, 260, 500}},
     {"the tick service is never injected while the lock is held (that is the contract COTmrLock/COTmrUnlock implement)",
      "timer driver = down counter as in drv_timer_swcycle.c",
      "while COTmrProcess runs, actions being dispatched may be linked nowhere: action-slot conservation is then checked as an upper bound, time-slot conservation exactly"}});
